@@ -45,7 +45,7 @@ def run_replay_file(path, hashseed=None):
     except (TypeError, ValueError):
         hs = 0
     p = subprocess.run(
-        [PY, "-m", "cgv.harness", "--replay", path],
+        [PY, "-m", "cgv.worker", "--replay", path],
         env=child_env(hs),
         cwd=VERIF,
         capture_output=True,
@@ -156,7 +156,7 @@ def main(argv):
             (
                 w,
                 subprocess.Popen(
-                    [PY, "-m", "cgv.harness", prop, tier, str(seed), str(w), str(nworkers), outdir],
+                    [PY, "-m", "cgv.worker", prop, tier, str(seed), str(w), str(nworkers), outdir],
                     env=child_env(h),
                     cwd=VERIF,
                     stdout=logf,
